@@ -4,6 +4,7 @@ import ast
 from ..loader import walk_no_nested, norm, is_self_attr, ClassInfo
 from ..effects import root, is_fresh, show, path_fields
 from .. import q
+from ..cfg import guarded_by
 
 
 def self_attr_accesses(fi, attr):
@@ -352,4 +353,55 @@ def run(ctx):
         else:
             bad = [x for x in rets if x not in direct and x not in via]
             r.fail(cparse, bad[0] if bad else cparse.node, norm(bad[0]) if bad else "no return", "Command.parse can return something else than the parser's result for this call")
+
+    # ---------------------------------------------------------------- R5
+    r = ctx.rule("C05-R5", "SENTINEL", "'the leniency mode' is the one the caller names: Command.parse consults the config's setting only when the mode "
+                 "argument is None - an explicit False is a mode, not an absence", reference=1)
+    explicit_mode_rule(ctx, r)
+
+    # ---------------------------------------------------------------- R6
+    from .c17 import leniency_pair_rule
+
+    r = ctx.rule("C05-R6", "PAIR", "a parse after a help request gives what it gave before: the leniency that the help resolver switches on for a command's config is "
+                 "switched back on every exit, to the value saved by the state query (same rule as C17-R2)", reference=1)
+    leniency_pair_rule(ctx, r)
+
+    # ---------------------------------------------------------------- R7
+    from .c17 import global_containers_rule, class_level_through_self
+
+    r = ctx.rule("C05-R7", "OWNER", "each parser object has its own scratch maps: no class-level (process-wide) container of the parser classes is mutated (same rule as C17-R6)", reference=1)
+    global_containers_rule(ctx, r, mod_pred=lambda m: m.startswith("clikit.args"))
+    class_level_through_self(ctx, r, mod_pred=lambda m: m.startswith("clikit.args"))
+    if r.n == 0:
+        inits = [m for c in p.subclasses(parser_base, strict=True) for n_, m in c.methods.items() if n_ == "__init__"]
+        if inits:
+            r.ok("no class-level container in clikit.args; scratch maps are created in %s" % ", ".join(m.short for m in inits))
+        else:
+            r.vacuous_ok = True
     return ctx.results
+
+
+def explicit_mode_rule(ctx, r):
+    """SENTINEL rule shared with C02."""
+    cmd = ctx.cls("clikit.api.command.command.Command")
+    cparse = cmd.methods.get("parse")
+    ctx.require(cparse is not None, "Command.parse missing")
+    cfg = ctx.cfg(cparse)
+    modes = [a for a in cparse.params if a not in ("self",) and isinstance(cparse.defaults.get(a), ast.Constant) and cparse.defaults[a].value is None]
+    ctx.require(modes, "Command.parse has no optional mode parameter any more")
+    for x in modes:
+        writes = [w for w in cfg.writes(lambda t, x=x: t == x)]
+        if not writes:
+            r.fail(cparse, cparse.node, "mode `%s` never defaulted" % x, "Command.parse never replaces a missing mode by the config's setting")
+            continue
+        for w in writes:
+            g = guarded_by(cfg, w, lambda e: isinstance(e, ast.Compare) and isinstance(e.ops[0], ast.Is) and isinstance(e.left, ast.Name) and e.left.id == x
+                           and isinstance(e.comparators[0], ast.Constant) and e.comparators[0].value is None, polarity=True, kill_names=lambda e: set())
+            v = w.ast.value if isinstance(w.ast, ast.Assign) else None
+            ifexp_ok = isinstance(v, ast.IfExp) and isinstance(v.test, ast.Compare) and isinstance(v.test.left, ast.Name) and v.test.left.id == x and isinstance(v.test.comparators[0], ast.Constant) \
+                and v.test.comparators[0].value is None and isinstance(v.test.ops[0], (ast.Is, ast.IsNot))
+            if g is not None or ifexp_ok:
+                r.ok("%s: `%s` defaulted only when it is None" % (cparse.short, x))
+            else:
+                r.fail(cparse, w.ast, norm(w.ast), "Command.parse overrides the mode `%s` it was given (%s): an explicit %s=False on a command whose config enables lenient parsing "
+                       "is parsed leniently - malformed lines are accepted in strict mode" % (x, norm(w.ast), x))
